@@ -56,6 +56,8 @@ def cases(rng, tier):
         tail = [(bs[j] + bs[j + 1]) / 2000.0 for j in (n - 1, n - 2, n - 100, 16383 if n > 16384 else n - 3, n // 2)]
         qs = ["y" + fhex(Y.f32(t)) for t in tail] + ["r" + fhex(Y.f32(t)) for t in tail[:3]] + ["d00000000", "y7f800000", "r7f800000", "y" + fhex(Y.f32(tail[0])), "d00000000"]
         yield ("yaw %s %s %s" % ("h" if k % 2 else "f", hexs(Y.encode(y)), ",".join(qs)), "long-block")
+    yield ("yaw f empty y00000000,y3f800000,r3f800000,d00000000,y7f800000,r7f800000", "init-empty")
+    yield ("yaw h empty y3f800000,d00000000,y3f800000,r00000000", "init-empty")
     for b in ([], [1], [1, 2], [0, 0, 0], [1, 0x10, 0, 5]):
         yield ("yaw f %s y00000000,r3f800000" % hexs(b), "short")
 
